@@ -260,8 +260,26 @@ void InterfacePayload::setData(const uint8_t* streamIds,
 
 bool InterfacePayload::isValidPayload(const uint8_t* data, const size_t size)
 {
+    if (size < minPayloadSize)
+        return false;
+
     auto header = reinterpret_cast<const Header*>(data);
-    return (size >= sizeof(Header) && header->getInterfaceStatus() <= InterfaceStatus::disabled);
+    if (header->getInterfaceStatus() > InterfaceStatus::disabled)
+        return false;
+
+    // Stream ids (padded to even length) and vendor data have to be inside the payload
+    size_t offset = sizeof(Header);
+    size_t streamIdsSize = (static_cast<size_t>(data[offset]) << 8) | data[offset + 1];
+    if (streamIdsSize % 2)
+        ++streamIdsSize;
+    offset += sizeof(uint16_t);
+    if (size - offset < streamIdsSize + sizeof(uint16_t))
+        return false;
+
+    offset += streamIdsSize;
+    const size_t vendorDataLength = (static_cast<size_t>(data[offset]) << 8) | data[offset + 1];
+    offset += sizeof(uint16_t);
+    return size - offset >= vendorDataLength;
 }
 
 const InterfacePayload::Header* InterfacePayload::getHeader() const
